@@ -149,7 +149,7 @@ def brute_hkls(cell, sym, dsmax):
     for (h, k, l), d in zip(hkl.T.tolist(), ds.tolist()):
         if (h, k, l) == (0, 0, 0):
             continue
-        if centring_allows(h, k, l, sym):
+        if d < dsmax and centring_allows(h, k, l, sym):
             out[(h, k, l)] = d
     return out, B
 
